@@ -193,6 +193,18 @@ type model struct {
 	created      []string
 	destroyed    int
 	iamSet       int
+
+	// lockstep groups (lifeconc.go): called at the start of every RPC, before the model's lock is
+	// taken; blocks until the group's scheduler gives this world's caller the turn
+	turn func()
+	// folded into the page tokens this world serves, so that a token of another world is never valid here
+	tokenSalt uint32
+}
+
+func (m *model) waitTurn() {
+	if m.turn != nil {
+		m.turn()
+	}
 }
 
 func newModel(p paging) *model {
@@ -400,16 +412,14 @@ func parentTag(parent string) uint32 {
 	return h.Sum32()
 }
 
-func mkToken(parent string, off, e int) string {
-	return fmt.Sprintf("pt%08x-%d-%d", parentTag(parent), off, e)
-}
+func (m *model) tag(parent string) uint32 { return parentTag(parent) ^ m.tokenSalt*0x9e3779b1 }
 
 // page computes one page of a listing of total items.
 func (m *model) page(parent string, total int, reqSize int32, token string) (lo, hi int, next string, err error) {
 	off, e := 0, 0
 	if token != "" {
 		var tag uint32
-		if n, _ := fmt.Sscanf(token, "pt%08x-%d-%d", &tag, &off, &e); n != 3 || tag != parentTag(parent) || off < 0 || off > total || !m.tokensServed[token] {
+		if n, _ := fmt.Sscanf(token, "pt%08x-%d-%d", &tag, &off, &e); n != 3 || tag != m.tag(parent) || off < 0 || off > total || !m.tokensServed[token] {
 			return 0, 0, "", status.Errorf(codes.InvalidArgument, "invalid page_token %q", token)
 		}
 		m.tokensUsed++
@@ -428,7 +438,7 @@ func (m *model) page(parent string, total int, reqSize int32, token string) (lo,
 		if n == 0 || tokEnd {
 			ne = 1
 		}
-		next = mkToken(parent, hi, ne)
+		next = fmt.Sprintf("pt%08x-%d-%d", m.tag(parent), hi, ne)
 		m.tokensServed[next] = true
 	}
 	return lo, hi, next, nil
@@ -440,6 +450,7 @@ func verPB(v *mver) *kmspb.CryptoKeyVersion {
 }
 
 func (m *model) ListCryptoKeys(_ context.Context, in *kmspb.ListCryptoKeysRequest, _ ...grpc.CallOption) (*kmspb.ListCryptoKeysResponse, error) {
+	m.waitTurn()
 	m.mu.Lock()
 	defer m.mu.Unlock()
 	if err := m.enter("ListCryptoKeys", fmt.Sprintf("size=%d token=%q", in.GetPageSize(), in.GetPageToken())); err != nil {
@@ -462,6 +473,7 @@ func (m *model) ListCryptoKeys(_ context.Context, in *kmspb.ListCryptoKeysReques
 }
 
 func (m *model) ListCryptoKeyVersions(_ context.Context, in *kmspb.ListCryptoKeyVersionsRequest, _ ...grpc.CallOption) (*kmspb.ListCryptoKeyVersionsResponse, error) {
+	m.waitTurn()
 	m.mu.Lock()
 	defer m.mu.Unlock()
 	if err := m.enter("ListCryptoKeyVersions", fmt.Sprintf("size=%d token=%q", in.GetPageSize(), in.GetPageToken())); err != nil {
@@ -484,6 +496,7 @@ func (m *model) ListCryptoKeyVersions(_ context.Context, in *kmspb.ListCryptoKey
 }
 
 func (m *model) GetCryptoKeyVersion(_ context.Context, in *kmspb.GetCryptoKeyVersionRequest, _ ...grpc.CallOption) (*kmspb.CryptoKeyVersion, error) {
+	m.waitTurn()
 	m.mu.Lock()
 	defer m.mu.Unlock()
 	m.gets++
@@ -516,6 +529,7 @@ func (m *model) newVersion(k *mkey) *mver {
 }
 
 func (m *model) CreateCryptoKeyVersion(_ context.Context, in *kmspb.CreateCryptoKeyVersionRequest, _ ...grpc.CallOption) (*kmspb.CryptoKeyVersion, error) {
+	m.waitTurn()
 	m.mu.Lock()
 	defer m.mu.Unlock()
 	if err := m.enter("CreateCryptoKeyVersion", shortName(in.GetParent())); err != nil {
@@ -531,6 +545,7 @@ func (m *model) CreateCryptoKeyVersion(_ context.Context, in *kmspb.CreateCrypto
 }
 
 func (m *model) CreateCryptoKey(_ context.Context, in *kmspb.CreateCryptoKeyRequest, _ ...grpc.CallOption) (*kmspb.CryptoKey, error) {
+	m.waitTurn()
 	m.mu.Lock()
 	defer m.mu.Unlock()
 	if err := m.enter("CreateCryptoKey", in.GetCryptoKeyId()); err != nil {
@@ -557,6 +572,7 @@ func (m *model) CreateCryptoKey(_ context.Context, in *kmspb.CreateCryptoKeyRequ
 }
 
 func (m *model) CreateKeyRing(_ context.Context, in *kmspb.CreateKeyRingRequest, _ ...grpc.CallOption) (*kmspb.KeyRing, error) {
+	m.waitTurn()
 	m.mu.Lock()
 	defer m.mu.Unlock()
 	if err := m.enter("CreateKeyRing", in.GetKeyRingId()); err != nil {
@@ -572,6 +588,7 @@ func (m *model) CreateKeyRing(_ context.Context, in *kmspb.CreateKeyRingRequest,
 }
 
 func (m *model) DestroyCryptoKeyVersion(_ context.Context, in *kmspb.DestroyCryptoKeyVersionRequest, _ ...grpc.CallOption) (*kmspb.CryptoKeyVersion, error) {
+	m.waitTurn()
 	m.mu.Lock()
 	defer m.mu.Unlock()
 	if err := m.enter("DestroyCryptoKeyVersion", shortName(in.GetName())); err != nil {
@@ -591,6 +608,7 @@ func (m *model) DestroyCryptoKeyVersion(_ context.Context, in *kmspb.DestroyCryp
 }
 
 func (m *model) GetPublicKey(_ context.Context, in *kmspb.GetPublicKeyRequest, _ ...grpc.CallOption) (*kmspb.PublicKey, error) {
+	m.waitTurn()
 	m.mu.Lock()
 	defer m.mu.Unlock()
 	if err := m.enter("GetPublicKey", shortName(in.GetName())); err != nil {
@@ -620,6 +638,7 @@ type iamModel struct {
 }
 
 func (i *iamModel) SetIamPolicy(_ context.Context, in *iampb.SetIamPolicyRequest, _ ...grpc.CallOption) (*iampb.Policy, error) {
+	i.m.waitTurn()
 	i.m.mu.Lock()
 	defer i.m.mu.Unlock()
 	if err := i.m.enter("SetIamPolicy", shortName(in.GetResource())); err != nil {
